@@ -18,6 +18,8 @@ package encryptcookie
 //@ macro validKey(K) = b64ok(K) && (len(b64dec(K)) == 16 || len(b64dec(K)) == 24 || len(b64dec(K)) == 32)
 //@ macro authentic(K, v) = b64ok(v) && len(b64dec(v)) >= 12 && gcmSealed[b64dec(K)][b64dec(v)]
 //@ macro plain(K, v) = gcmOpen(b64dec(K), b64dec(v))
+// what a handler behind the middleware reads when the client presents v (for whatever non-excepted cookie name)
+//@ macro readsAs(K, v) = ite(validKey(K) && authentic(K, v), plain(K, v), "")
 
 // ---------------------------------------------------------------------------------------------
 // The default Encryptor / Decryptor
@@ -94,17 +96,19 @@ package encryptcookie
 // ---------------------------------------------------------------------------------------------
 //@ macro excepted(n) = exists(i, 0, len(cfg.Except), cfg.Except[i] == n)
 
-// Request side, one call per request cookie (name key, current value `value`): what the next handler
-// will read for this name.
+// Request side (after fix_1: the header is rebuilt). One call per request cookie PAIR (name key, value `value`; a name may
+// occur more than once): the pair the next handler will read for it is appended to `cookies` - excepted names unchanged,
+// otherwise readsAs(K, value): the plaintext if the value is a box issued under K, "" if not. NO BINDING TO THE NAME
+// (examined: replay/observed c20_swap): readsAs has no name argument; Encryptor/Decryptor do not receive the name, so a
+// box issued for cookie A, or an older box of the same cookie, is accepted under any non-excepted name B.
+// clean(K, n, v): v may be handed to a handler as the value of cookie n.
+//@ macro clean(K, n, v) = excepted(n) || v == "" || existsS(x, validKey(K) && authentic(K, x) && v == plain(K, x))
 //@ func New$1$1
-//@   requires visited-pair-is-current: jarHas[reqJar(c)][str(key)] && jarVal[reqJar(c)][str(key)] == str(value)
-//@   modifies jarHas, jarVal
-//@   ensures excepted-pass-through: excepted(str(key)) ==> jarVal == old(jarVal) && jarHas == old(jarHas)
-//@   ensures issued-cookie-original-value: !excepted(str(key)) && validKey(cfg.Key) && authentic(cfg.Key, str(value)) ==> jarVal[reqJar(c)][str(key)] == plain(cfg.Key, str(value))
-//@   ensures anything-else-empty: !excepted(str(key)) && !(validKey(cfg.Key) && authentic(cfg.Key, str(value))) ==> jarVal[reqJar(c)][str(key)] == ""
-//@   ensures still-present: jarHas[reqJar(c)][str(key)]
-//@   ensures other-cookies-untouched: forallS(k, k != str(key) ==> jarVal[reqJar(c)][k] == old(jarVal[reqJar(c)][k]) && jarHas[reqJar(c)][k] == old(jarHas[reqJar(c)][k]))
-//@   ensures other-jars-untouched: forallI(h, h != reqJar(c) ==> jarVal[h] == old(jarVal[h]) && jarHas[h] == old(jarHas[h]))
+//@   preserves collected-are-clean: forall(i, 0, len(cookies), clean(cfg.Key, cookies[i].name, cookies[i].value))
+//@   ensures appended-one-pair: len(cookies) == old(len(cookies)) + 1 && cookies[len(cookies)-1].name == str(key)
+//@   ensures excepted-pass-through: excepted(str(key)) ==> cookies[len(cookies)-1].value == str(value)
+//@   ensures value-depends-only-on-presented-ciphertext-not-on-name: !excepted(str(key)) ==> cookies[len(cookies)-1].value == readsAs(cfg.Key, str(value))
+//@   ensures earlier-pairs-kept: forall(i, 0, old(len(cookies)), cookies[i].name == old(cookies[i].name) && cookies[i].value == old(cookies[i].value))
 
 // Response side, one call per response cookie (name key): what the client will receive for this name.
 // An Encryptor error panics (documented behaviour), so a normal return means the value was encrypted.
@@ -135,6 +139,11 @@ package encryptcookie
 //@ macro bypassed() = called(Config.Next) && last(Config.Next)
 //@ func New$1
 //@   requires fresh-activation: nextCalls == 0 && jarVisits[reqJar(c)] == 0 && jarVisits[respJar(c)] == 0 && reqJar(c) != respJar(c)
+//@   loop 1
+//@     invariant index-in-range: rangeindex < len(cookies)
+//@     invariant collected-are-clean: forall(i, 0, len(cookies), clean(cfg.Key, cookies[i].name, cookies[i].value))
+//@     invariant rebuilt-so-far-clean: forallS(n, jarHas[reqJar(c)][n] ==> clean(cfg.Key, n, jarVal[reqJar(c)][n]))
+//@   atcall @fiber.Ctx.Next: handler-reads-only-issued-plaintext-or-empty: bypassed() || forallS(n, jarHas[reqJar(c)][n] ==> clean(cfg.Key, n, jarVal[reqJar(c)][n]))
 //@   atcall @fiber.Ctx.Next: decrypted-before-handler: bypassed() || (jarVisits[reqJar(c)] == 1 && jarVisits[respJar(c)] == 0)
 //@   ensures skipped-untouched: bypassed() ==> nextCalls == 1 && jarVisits[reqJar(c)] == 0 && jarVisits[respJar(c)] == 0
 //@   ensures handler-ran-once: nextCalls == 1
